@@ -103,14 +103,41 @@ func (d *Dictionary) Decode(dst [][]byte, src []byte, itemsCount uint64) ([][]by
 	if err != nil {
 		return nil, err
 	}
+	if err = validateRLE(d.tmp, itemsCount); err != nil {
+		return nil, err
+	}
 	d.indices = decodeRLE(d.indices, d.tmp)
 	if uint64(len(d.indices)) != itemsCount {
 		return nil, fmt.Errorf("unexpected item counts; got %d; want %d", len(d.indices), itemsCount)
 	}
 	for _, index := range d.indices {
+		if uint64(index) >= uint64(len(d.values)) {
+			return nil, fmt.Errorf("corrupted dictionary indices: index %d out of range [0,%d)", index, len(d.values))
+		}
 		dst = append(dst, d.values[index])
 	}
 	return dst, nil
+}
+
+// validateRLE checks a decoded run-length stream of (value, count) pairs before it is expanded:
+// the stream must consist of whole pairs and the runs must add up to exactly itemsCount
+// (so a corrupted count cannot trigger a huge allocation).
+func validateRLE(rle []uint32, itemsCount uint64) error {
+	if len(rle)%2 != 0 {
+		return fmt.Errorf("corrupted dictionary indices: odd RLE stream length %d", len(rle))
+	}
+	var total uint64
+	for i := 0; i < len(rle); i += 2 {
+		count := uint64(rle[i+1])
+		if count > itemsCount-total {
+			return fmt.Errorf("unexpected item counts; got more than %d", itemsCount)
+		}
+		total += count
+	}
+	if total != itemsCount {
+		return fmt.Errorf("unexpected item counts; got %d; want %d", total, itemsCount)
+	}
+	return nil
 }
 
 func (d *Dictionary) decodeBytesBlockWithTail(src []byte, itemsCount uint64) ([][]byte, []byte, error) {
@@ -184,7 +211,7 @@ func decodeRLE(dst []uint32, src []uint32) []uint32 {
 	for i := 0; i < len(src); i += 2 {
 		value := src[i]
 		count := src[i+1]
-		for j := uint32(1); j <= count; j++ {
+		for j := uint32(0); j < count; j++ {
 			dst = append(dst, value)
 		}
 	}
